@@ -47,7 +47,7 @@ fn props() -> Vec<PropDef> {
 		p!("C01", "exploration", c01, part),
 		p!("C02", "exploration", c02, part),
 		p!("C03", "exploration", c03, part),
-		p!("C04", "exploration", c04),
+		p!("C04", "exploration", c04, part),
 		p!("C05", "exploration", c05),
 		p!("C06", "exploration", c06, part),
 		p!("C07", "exploration", c07),
@@ -55,7 +55,7 @@ fn props() -> Vec<PropDef> {
 		p!("C09", "fault_enumeration", c09),
 		p!("C10", "exploration", c10),
 		p!("C11", "exploration", c11),
-		p!("C12", "exploration", c12),
+		p!("C12", "exploration", c12, part),
 		p!("C13", "exploration", c13, part),
 		p!("C14", "exploration", c14),
 		p!("C15", "exploration", c15),
